@@ -143,6 +143,7 @@ func (ba *flatBlobAccess) Get(ctx context.Context, blobDigest digest.Digest) buf
 		return b
 	}
 	ba.lock.RUnlock()
+	verifYield(ctx, "flat.Get.upgrade")
 
 	// Blob was found, but it needs to be refreshed to ensure it
 	// doesn't disappear. Retry loading the blob a second time, this
@@ -232,6 +233,7 @@ func (ba *flatBlobAccess) GetFromComposite(ctx context.Context, parentDigest, ch
 	// yet, or it needs to be refreshed to ensure it doesn't
 	// disappear. Retry the process above, but now with write locks
 	// acquired.
+	verifYield(ctx, "flat.GetFromComposite.refresh")
 	ba.refreshLock.Lock()
 	defer ba.refreshLock.Unlock()
 
@@ -398,6 +400,7 @@ func (ba *flatBlobAccess) FindMissing(ctx context.Context, digests digest.Set) (
 	// duplicated and load to increase significantly. Pick up the
 	// refresh lock to ensure bandwidth of refreshing is limited to
 	// one thread.
+	verifYield(ctx, "flat.FindMissing.refresh")
 	ba.refreshLock.Lock()
 	defer ba.refreshLock.Unlock()
 	// Add refresh start time before the refresh loop
